@@ -19,7 +19,7 @@ def run(ctx):
     ctx.extra["nonatomic_variant_refuted"] = True
     b = ctx.go_bin("idsx", race=not ctx.quick())
     out = ctx.path("idsobs.ndjson")
-    env = {"VERIF_OUT": out, "VERIF_G": 8 if ctx.quick() else 16, "VERIF_K": 30 if ctx.quick() else 45, "VERIF_ROUNDS": 2 if ctx.quick() else 6}
+    env = {"VERIF_OUT": out, "VERIF_G": 16, "VERIF_K": 250 if ctx.quick() else 1500, "VERIF_ROUNDS": 3 if ctx.quick() else 10}
     r = ctx.run_go(b, "TestIds", env=env, timeout=900)
     if "DATA RACE" in r.stdout:
         ctx.violation({"rule": "C18.race"}, "data race reported by the race detector during concurrent opens", detail=r.stdout[-4000:])
@@ -31,10 +31,10 @@ def run(ctx):
         for v in verdicts:
             c = idx[v["case"]]
             ctx.violation({"rule": v["rule"]}, "%s violated by concurrent opens (case %s)" % (v["rule"], v["case"]),
-                          detail={"calls": sorted([(x["rank"], x["g"], x["k"], x["life"], x["start"], x["end"], x["err"]) for x in c["calls"]])[:200]})
+                          detail={"n": c["n"], "distinctIds": c["distinctIds"], "distinctChannels": c["distinctChannels"], "calls": sorted([(x["rank"], x["g"], x["k"], x["life"], x["start"], x["end"], x["err"]) for x in c["calls"]])[:200]})
         for c in idx.values():
             ctx.traces += 1
-            ctx.evaluations += len(c["calls"])
+            ctx.evaluations += c["n"]
             for x in c["calls"]:
                 ctx.distinct.add(("id", c["case"], x["rank"]))
         for c in list(idx.values())[:1]:
